@@ -8,7 +8,7 @@
    stream-mode runs compute on the corresponding sequence of [PCheck] / [PMap] stages, i.e.
    the invoke and the transform variant of every handler are the two sides that
    [concat_check] / [concat_fieldMap] / [run_sim] relate. *)
-From Eino Require Import Base.Util Model.Paradigm Model.StreamOps Model.StreamGenLib
+From Eino Require Import Base.Util Model.Paradigm Model.StreamOps Model.C04GenLib
   Model.ParadigmProg Model.ParadigmSpec Model.ParadigmHandlers.
 From Eino Require Gen.C04Handle.
 
